@@ -67,6 +67,14 @@ PROPS = {
     "C28": P("w4", quick_runs=4000, thorough_runs=300000, quick_budget_s=100, thorough_budget_s=1500,
              required_probes=["c28.topology-judged", "c28.coordinator-reply"],
              level_text="generated cluster metadata snapshots and metadata / coordinator requests (every version, all topics / by name / by id) against the real proxy while the simulator changes the cluster metadata, delays and fails the store and holds the proxy in its not-ready state; mostly input generation, the simulator contributes the ready/not-ready/stale-cache states and the concurrent snapshot changes"),
+    "C30": P("w4", quick_runs=4000, thorough_runs=300000, quick_budget_s=100, thorough_budget_s=1500,
+             required_probes=["c30.download-served", "c30.download-refused", "c30.reader-returned", "c30.reader-refused"],
+             level_text="generated envelopes (algorithms, checksum fields, sizes) and object contents (replaced, truncated, extended) read through the real Resolver, Consumer and the proxy's download handler over a simulated S3 whose reads are corrupted, cut short, extended or fail mid-body; mostly input generation, the simulator contributes the storage faults"),
+    "C31": P("w4", quick_runs=3000, thorough_runs=200000, quick_budget_s=100, thorough_budget_s=1500,
+             required_probes=["c31.flagged-record", "c31.rewritten-batch", "c31.partition-judged"],
+             level_text="generated produce requests (flagged/unflagged records, several batches and partitions, every codec, arbitrary header sets, null/empty keys and values) sent through the real proxy with the LFS module on; the fake broker's received bytes are compared with what was sent. Deciding dimension: generated inputs; the simulator hosts the run (S3 faults, NOT_LEADER retries that re-encode)"),
+    "C32": P("w4", quick_runs=1500, thorough_runs=100000, quick_budget_s=120, thorough_budget_s=1500,
+             required_probes=["c32.success-judged", "c32.upload-refused", "c32.multipart-success"]),
 }
 
 NA = {
